@@ -532,7 +532,6 @@ def same(a, b):
 def oracle(chk, scr, case, res, stream):
     """direct statement of C16 on what the real code returned"""
     tag, got = res
-    legacy_typed = False
     exp, note = resolve(scr, case) if stream == "load" else (None, "construct")
     if stream == "construct":
         exp = dict((k, v["default"]) for k, v in DEFAULT_OPTS.items())
@@ -543,10 +542,7 @@ def oracle(chk, scr, case, res, stream):
         note = {"file_kind": "none"}
     if exp is None:
         return                      # an invalid number in the environment / on the command line: an error either way
-    if note["file_kind"] == "legacy":
-        f = [ff for ff in case["files"].values() if ff["kind"] == "legacy"][0]
-        legacy_typed = any(k.lower() in INT_OPTS + FLOAT_OPTS or k.lower() in default_bools() for k, _ in f["items"])
-    fid = "legacy-section-typed-option" if legacy_typed else None
+    fid = None          # no known finding is listed for C16 (the legacy-section defect was repaired: fixed: 8686086)
     cdesc = case_for_replay(case, stream)
 
     # conflicting combinations present in the resolved (pre-implication) values must be rejected
@@ -625,7 +621,7 @@ def case_for_replay(case, stream):
     return {"stream": stream, "kw": case["kw"], "files": case["files"], "env": case["env"], "cli": case["cli"], "pe": case.get("pe", False)}
 
 
-# ----------------------------------------------------------------------------- known finding
+# ----------------------------------------------------------------------------- regression witness (fixed: 8686086)
 LEGACY_WITNESS = {"kw": {"conf": T + "/conf_a.conf"}, "env": [], "cli": [], "pe": False,
                   "files": {T + "/conf_a.conf": {"kind": "legacy", "items": [["auto_update", "False"]]}}}
 
@@ -715,11 +711,14 @@ def run(chk):
     try:
         primitives(chk, scr)
 
-        # ---- known finding: witness replay
+        # ---- regression witness of the repaired defect (fixed: 8686086): a typed option in the legacy section must
+        #      now be loaded; it is also the first case of the load_all stream (correspondence + oracle)
         res = run_impl(scr, LEGACY_WITNESS)
-        chk.witnesses.append({"id": "legacy-section-typed-option", "outcome": list(map(str, res))[0]})
-        if res[0] == "NOSECTION":
-            chk.finding_reproduced("legacy-section-typed-option")
+        ok = res[0] == "OK" and res[1].get("auto_update") is False
+        chk.witnesses.append({"id": "fixed:8686086 legacy-section-typed-option", "outcome": res[0], "passes": ok})
+        if not ok:
+            chk.failure("legacy section [redhat-access-insights] with auto_update=False: expected auto_update False after load_all, got %s %s"
+                        % (res[0], res[1] if res[0] != "OK" else res[1].get("auto_update")), case_for_replay(LEGACY_WITNESS, "load"))
 
         # ---- 2. construct: exhaustive over the core booleans
         nb = 13 if quick else len(CORE_BOOLS)
